@@ -94,10 +94,13 @@ pub fn c20() -> Check {
     Check {
         property: "C20",
         level: "fault_enumeration",
-        scenarios: vec![Box::new(SqlScenario { name: "c20-faults", family: Family::Any, mode: Mode::Fault, need_reference: false, weight: 1 })],
+        scenarios: vec![
+            Box::new(SqlScenario { name: "c20-faults", family: Family::Any, mode: Mode::Fault, need_reference: false, weight: 2 }),
+            Box::new(crate::c10::RepartitionFaults),
+        ],
         cases_quick: 16_000,
         cases_thorough: 400_000,
-        rule: "runs: generated queries with exactly one scripted fault whose position is swept by the generator: an input partition returns an error or panics at a random step, or (under a bounded pool that forces spilling) the k-th spill create/write/flush/finish/read fails (torn/sticky variants). Once the fault has fired the result must be an error (or the injected panic re-raised) or the complete expected result; never a truncated success, hang or foreign panic; afterwards the release invariants of C19. distinct/non-trivial as for C02",
+        rule: "runs: generated queries with exactly one scripted fault whose position is swept by the generator: an input partition returns an error or panics at a random step, or (under a bounded pool that forces spilling) the k-th spill create/write/flush/finish/read fails (torn/sticky variants). Once the fault has fired the result must be an error (or the injected panic re-raised) or the complete expected result; never a truncated success, hang or foreign panic; afterwards the release invariants of C19. c20-repartition (one third of the runs): RepartitionExec (round-robin/hash/preserve_order, 1-8 outputs) over scripted inputs with one injected input error while a third of the outputs are dropped after 0-2 batches: every output read to its end must report the error. distinct/non-trivial as for C02",
         assumptions: L1_ASSUME.to_vec(),
         components: components(),
     }
